@@ -7,7 +7,7 @@ KERNELS = ['K_scale']   # translated from /repo on every run, tied to the model 
 RUNNER = "impl_m2.py"
 N = {"quick": 1500, "thorough": 50000}
 LEVEL_RULE = ("envelopes (plain and FlexTempo) as C08; one edit per case: sample_at(t, append), extend_until(d), cut_out(a, b), "
-              "cut_off(a, b), split_at(times); positions strictly inside curved segments or inside the last segment in >= 50 % of "
+              "cut_off(a, b), split_at(times), and (15 %) histories of 2-4 in-place edits on one envelope object, every step judged like a single edit against a rebuild of the state before it; positions strictly inside curved segments or inside the last segment in >= 50 % of "
               "the cases, on control points, before 0 / beyond the end, plus a malformed stream. The runner compares value_at of the "
               "result with value_at of an untouched copy on a grid of 41 offsets + every control point (kept parts only). "
               "non-trivial = the edit succeeds and a position lies strictly inside a curved segment or the last segment")
@@ -20,6 +20,8 @@ def gen(seed, index):
     rng = rng_for(PID, seed, index)
     G = g.GE(rng)
     e = G.env(rng.randint(1, 6))
+    if rng.random() < 0.15:
+        return gen_history(rng, G, e)
     k = rng.choice(["sample_at", "sample_at", "extend_until", "cut_out", "cut_out", "cut_off", "cut_off", "split_at", "split_at"])
 
     def t(bad=0.08):
@@ -55,7 +57,49 @@ def gen(seed, index):
     return ["envop", e, op]
 
 
+def gen_history(rng, G, e):
+    """history stream: 2-4 in-place edits on ONE envelope object (the result of an edit is an envelope like any other)"""
+    st, total = g.starts(e)
+    dur = total
+    ops = []
+    half = max(1, G.unit // 2)
+    for _ in range(rng.randint(2, 4)):
+        k = rng.choice(["sample_at", "extend_until", "cut_out", "cut_out", "cut_off"])
+
+        def t(lo, hi):
+            return rng.randint(lo // half, max(lo // half, hi // half)) * half + rng.choice([0, 0, 0, 1])
+
+        if k == "sample_at":
+            x = t(0, dur + 2 * G.unit)
+            ops.append([k, x, 0])
+            dur = max(dur, x)
+        elif k == "extend_until":
+            x = t(0, dur + 2 * G.unit)
+            ops.append([k, x])
+            dur = max(dur, x)
+        elif k == "cut_out":
+            a = t(0, dur)
+            b = a + rng.choice([1, 2, 3]) * half if rng.random() < 0.6 else max(a + 1, rng.choice([dur, dur, dur + G.unit]))
+            ops.append([k, a, b])
+            dur = b - a
+        else:
+            a = t(0, dur)
+            b = a + rng.choice([1, 2, 3]) * half
+            ops.append([k, a, b])
+            if a < dur:
+                dur = dur - (min(b, dur) - a)
+    return ["envhist", e] + ops
+
+
 def compare(case, mo, io):
+    if case[0] == "envhist":
+        if len(mo) != len(io):
+            return f"history: model answers {len(mo) - 1} steps, implementation {len(io) - 1}"
+        for k, (a, b) in enumerate(zip(mo[1:], io[1:])):
+            d = compare(["envop", case[1], case[2 + k]], a, b)
+            if d:
+                return f"step {k} {sx.show(case[2 + k])}: {d}"
+        return None
     if is_err(mo) or is_err(io):
         a, b = mo[:2], io[:2]
         if a != b and not (a[1] == "EmptyEnvelopeError" and b[1] == "RecursionError"):
@@ -75,6 +119,16 @@ def times_of(env):
 
 
 def oracle(case, io, mo):
+    if case[0] == "envhist":
+        prev = case[1]
+        for k, (op, step) in enumerate(zip(case[2:], io[1:])):
+            m = oracle(["envop", prev, op], step, None)
+            if m:
+                return f"step {k} on the envelope left by the earlier edits {sx.show(prev)[:200]}: {m}"
+            if is_err(step):
+                break
+            prev = [case[1][0]] + step[1][1:]
+        return None
     e, op = case[1], case[2]
     k = op[0]
     pts, durs, total = env_points(e)
@@ -135,10 +189,12 @@ def oracle(case, io, mo):
 
 
 def known(f, case, msg, io):
-    return f.get("id") == "F6" and (msg or "").startswith("[F6]")
+    return f.get("id") == "F6" and ((msg or "").startswith("[F6]") or ((msg or "").startswith("step ") and ": [F6] " in (msg or "")))
 
 
 def nontrivial(case, io):
+    if case[0] == "envhist":
+        return io is not None and len(io) >= 3 and not any(is_err(x) for x in io[1:])
     if io is None or is_err(io):
         return False
     e, op = case[1], case[2]
@@ -155,6 +211,10 @@ def stats(results):
     for r in results:
         case = r["case"]
         io = r.get("io")
+        if case[0] == "envhist":
+            c["history:steps=%d" % (len(case) - 2)] += 1
+            c["kind:" + case[1][0]] += 1
+            continue
         c[case[2][0] + (":err:" + io[1] if io and is_err(io) else ":ok")] += 1
         c["kind:" + case[1][0]] += 1
     return dict(sorted(c.items()))
@@ -163,6 +223,8 @@ def stats(results):
 def shrink(case):
     out = []
     e = case[1]
+    if case[0] == "envhist":
+        return [case[:2] + case[2:2 + i] + case[3 + i:] for i in range(len(case) - 2) if len(case) > 3]
     for i in range(1, len(e)):
         if len(e) > 2:
             out.append(["envop", e[:i] + e[i + 1:], case[2]])
@@ -170,6 +232,8 @@ def shrink(case):
 
 
 def neighbours(case):
+    if case[0] == "envhist":
+        return shrink(case)
     out = shrink(case)
     op = case[2]
     if op[0] in ("cut_out", "cut_off"):
